@@ -2,6 +2,8 @@ import CookModel.Lemmas.Text
 import CookModel.Analysis.Collector
 import CookModel.Lemmas.ParserBlocks
 import CookModel.Lemmas.Blocks
+import CookModel.Lemmas.ClosingFold
+import CookModel.Lemmas.ClosingStream
 /-
   C03  No input makes a public entry point panic, overflow or hang.
 
@@ -12,7 +14,10 @@ import CookModel.Lemmas.Blocks
   `append_fragment`'s assertion nor the offset assertion of `BlockParser::text` on any lexed run;
   every block the splitter hands to `BlockParser::new` is non-empty (its `assert!`) and does not end
   in a newline (the `debug_assert!` of `parse_multiline_block`); the splitter always makes progress
-  (termination of `next_block`).  The rest of `C03_statement` is decided per run: the model's flag
+  (termination of `next_block`).  UPDATE: the block parsers (`C03_parse_events_no_panic`), the
+  analysis pass on parser-like event streams (`C03_analysis_no_panic`), `parse_metadata`
+  (`C03_parse_metadata_no_panic`) and `parse` up to one hypothesis on spans (`C03_holds_partial`) are
+  proved below.  The rest of `C03_statement` is decided per run: the model's flag
   is compared with "did the real code panic" on every generated input, and every public entry
   point and consumer is run under `catch_unwind` with a watchdog.
 -/
@@ -291,6 +296,91 @@ theorem C03_statement_iff_analysis_no_panic :
   · intro h env input
     rw [C03_parse_recipe_panic_only_from_analysis, C03_parse_metadata_panic_only_from_analysis]
     exact h env input
+
+/-! ### The analysis pass: no `apanic` site is reachable on parser-like event streams
+
+  `Lemmas/ClosingPanic.lean` (one lemma per function of `Analysis/Collector.lean`: under which facts of
+  the collector state its panic sites are unreachable) and `Lemmas/ClosingFold.lean` (the invariant
+  of the fold and the theorem below). -/
+
+/-- **C03, analysis pass.**  `RecipeCollector::parse_events` reaches none of its panic sites on any
+    event list that
+    * is `WellBracketed`: content events only between `Start k` and the `End k` that closes it, no
+      nested `Start`, in a text block only text events, `>>` metadata (which can switch the define
+      mode) only between blocks — sites "Content outside block", "End event without Start", the two
+      `End` kind assertions, "Non text event in text block outside define mode text";
+    * consists of `EvOK'` events: intermediate data only with the REF modifier and with a
+      non-negative value, timers with a name or a quantity — sites "intermediate data without REF",
+      "resolve_intermediate_ref: negative value";
+    * has component spans on character boundaries of the input (`SpansOK`, the obligation of C04) —
+      site "text mode: slice not on a char boundary".
+    The remaining sites are unreachable whatever the events: reference targets and back-links are in
+    range and are definitions (collector invariant `Inv` plus the lock-step of `locations` and the
+    tables), `time_override_check` finds the key it just inserted, a one-character key is not `[…]`. -/
+theorem C03_analysis_no_panic {α : Type} [Arith α] (env : Env) (input : Str) (evs : List (Ev α))
+    (hev : ∀ ev ∈ evs, EvOK' ev) (hw : WellBracketed evs) (hsp : SpansOK input evs) :
+    (parseEvents env input evs).panic = none := parseEvents_no_panic env input evs hev hw hsp
+
+/-- the events of the pull parser satisfy the first two hypotheses of `C03_analysis_no_panic`, for every
+    input, `CharSpec` and extension set: every event is `EvOK'` (`parse_modifiers` sets intermediate
+    data only at `&`, together with REF, to a parsed natural number; `timer` recovers a quantity) and
+    the stream is `WellBracketed` (`parse_step`/`parse_text_block` push `Start`, content, `End`;
+    text blocks push only text; metadata and section events are pushed by single-line blocks) -/
+theorem C03_parser_events_shape {α : Type} [Arith α] (cs : CharSpec) (ext : Ext) (input : Str) :
+    (∀ ev ∈ (pullEvents (α := α) cs ext input).1.toList, EvOK' ev) ∧
+    WellBracketed (pullEvents (α := α) cs ext input).1.toList :=
+  ⟨pullEvents_evOK' cs ext input, pullEvents_wellBracketed cs ext input⟩
+
+/-- **C03, `parse_metadata`, complete** (second half of `C03_statement`): for every input, `CharSpec`,
+    extension set and converter environment neither the metadata-only scanner nor the analysis pass
+    reaches a panic site (the scanner emits only front matter, metadata entries and diagnostics, on
+    which all three hypotheses of `C03_analysis_no_panic` hold trivially) -/
+theorem C03_parse_metadata_no_panic {α : Type} [Arith α] (env : Env) (input : Str) :
+    (parseMetadata (α := α) env input).panic = none := by
+  rw [C03_parse_metadata_panic_only_from_analysis]
+  have hm := pullMetaEvents_meta (α := α) env.cs env.ext input
+  exact parseEvents_no_panic env input _ (fun ev h => (hm ev h).evOK') (wbFrom_of_meta _ hm)
+    (fun ev h => (hm ev h).spanOK input)
+
+/-- **C03, `parse`** (first half of `C03_statement`) under the one remaining hypothesis: the spans of
+    the component events lie on character boundaries of the input (`SpansOK`; the parser builds them
+    from token positions, which are boundaries by `lexFrom_boundary` — the statement that they are is
+    part of C04 and is not proved here).  It is only used at one site: in define mode `text` the
+    source text of a component is sliced out of the input. -/
+theorem C03_parse_no_panic_partial {α : Type} [Arith α] (env : Env) (input : Str)
+    (hsp : SpansOK input (pullEvents (α := α) env.cs env.ext input).1.toList) :
+    (parseRecipe (α := α) env input).panic = none := by
+  rw [C03_parse_recipe_panic_only_from_analysis]
+  exact parseEvents_no_panic env input _ (pullEvents_evOK' env.cs env.ext input)
+    (pullEvents_wellBracketed env.cs env.ext input) hsp
+
+/-- `C03_statement` under the span hypothesis of `C03_parse_no_panic_partial`; missing for the full
+    statement: every component span the parser emits lies on character boundaries of the input
+    (needed only for the slice taken in define mode `text`). -/
+theorem C03_holds_partial
+    (hsp : ∀ (env : Env) (input : Str), SpansOK input (pullEvents (α := Rat) env.cs env.ext input).1.toList) :
+    C03_statement :=
+  fun env input => ⟨C03_parse_no_panic_partial env input (hsp env input), C03_parse_metadata_no_panic env input⟩
+
+/-! non-vacuity of the three hypotheses: a step with a component and an intermediate reference, then a
+    mode switch between blocks, then a text block -/
+example : let evs : List (Ev Rat) := [.start .step, .text (Text.empty 0),
+      .ingredient ⟨⟨⟨⟨Modifiers.REF⟩, ⟨0, 0⟩⟩, some ⟨⟨false, false, 1⟩, ⟨0, 0⟩⟩, Text.empty 0, none, none, none⟩, ⟨0, 0⟩⟩,
+      .timer ⟨⟨some (Text.empty 0), none⟩, ⟨0, 0⟩⟩, .stop .step,
+      .metadata (Text.empty 0) (Text.empty 0), .start .text, .text (Text.empty 0), .stop .text]
+    (∀ ev ∈ evs, EvOK' ev) ∧ WellBracketed evs ∧ SpansOK [] evs := by
+  intro evs
+  refine ⟨?_, ?_, ?_⟩
+  · intro ev hmem
+    simp only [evs, List.mem_cons, List.mem_nil_iff, or_false] at hmem
+    rcases hmem with rfl | rfl | rfl | rfl | rfl | rfl | rfl | rfl | rfl <;>
+      simp [EvOK', Modifiers.contains]
+  · exact ⟨_, rfl, _, rfl, _, rfl, _, rfl, _, rfl, _, rfl, _, rfl, _, rfl, _, rfl, trivial⟩
+  · intro ev hmem sp hsp
+    simp only [evs, List.mem_cons, List.mem_nil_iff, or_false] at hmem
+    rcases hmem with rfl | rfl | rfl | rfl | rfl | rfl | rfl | rfl | rfl <;>
+      simp only [evSpan, reduceCtorEq, Option.some.injEq] at hsp <;> subst hsp <;>
+      exact ⟨[], [], [], rfl, rfl, rfl⟩
 
 /-! non-vacuity: the tokens of `@a{1}` satisfy the hypotheses of `C03_block_no_panic` -/
 example : let b : List Tok := [⟨.at, ['@'], 0⟩, ⟨.word, ['a'], 1⟩, ⟨.openBrace, ['{'], 2⟩, ⟨.int, ['1'], 3⟩,
